@@ -3,7 +3,6 @@
 package main
 
 import (
-	"encoding/base64"
 	"fmt"
 	"strconv"
 	"strings"
@@ -21,431 +20,11 @@ func init() {
 	replayers["C04"] = replayC04
 }
 
-// ---- script encoding (so that a case replays from its own line) ------------------------------
-
-// cmd = tag ":" seg { "," seg } ; seg = kind short "." hex(text) "." hex(payload) ; cmds joined by "/"
-func sfEncode(cmds []sfCmd) string {
-	var cs []string
-	for _, c := range cmds {
-		var ss []string
-		for _, s := range c.segs {
-			k := s.kind
-			if k == 0 {
-				k = 'e'
-			}
-			ss = append(ss, fmt.Sprintf("%c%s.%s.%s", k, b01(s.short), hx(s.text), hx(s.payload)))
-		}
-		cs = append(cs, hx([]byte(c.tag))+":"+strings.Join(ss, ","))
-	}
-	if len(cs) == 0 {
-		return "-"
-	}
-	return strings.Join(cs, "/")
-}
-
-func sfDecode(s string) []sfCmd {
-	if s == "-" {
-		return nil
-	}
-	var cmds []sfCmd
-	for _, c := range strings.Split(s, "/") {
-		p := strings.SplitN(c, ":", 2)
-		cmd := sfCmd{tag: string(unhx(p[0]))}
-		for _, sg := range strings.Split(p[1], ",") {
-			f := strings.Split(sg[2:], ".")
-			k := sg[0]
-			if k == 'e' {
-				k = 0
-			}
-			cmd.segs = append(cmd.segs, sfSeg{kind: k, short: sg[1] == '1', text: unhx(f[0]), payload: unhx(f[1])})
-		}
-		cmds = append(cmds, cmd)
-	}
-	return cmds
-}
-
 // c04Run plays cmds on a fresh connection of env and returns the case fields.
 func c04Run(env *sfEnv, lit string, preauth, pipeline bool, cmds []sfCmd) []string {
-	sc := env.dial()
-	sc.play(cmds, pipeline)
-	end := sc.finish()
-	env.awaitDrained()
-	calls, closes, _ := sfCalls(sc.sess)
-	panics := sfPanicLogs(env.takeLogs())
-	trace := "-"
-	if len(sc.trace) > 0 {
-		trace = strings.Join(sc.trace, ";")
-	}
-	return []string{lit, b01(preauth), b01(pipeline), sfEncode(cmds), hx(sc.all), trace, end,
-		calls, strconv.Itoa(closes), strconv.Itoa(panics)}
-}
-
-// ---- generator ---------------------------------------------------------------------------------
-
-var c04Sizes = []int64{0, 1, 4095, 4096, 4097, 5000, 100 << 20, 100<<20 + 1}
-
-type c04Gen struct {
-	r     *rng
-	k     int // marker counter: every value and every tag of a case is unique
-	cnt   []string
-	big   int // payloads over 1 KiB so far in this case
-	wild  bool
-	state int // 0 not authenticated, 1 authenticated, 2 selected (what a conforming server would be in)
-}
-
-func (g *c04Gen) count(s string) { g.cnt = append(g.cnt, s) }
-
-func (g *c04Gen) mark(prefix string) string {
-	g.k++
-	return fmt.Sprintf("%s%d", prefix, g.k)
-}
-
-// payload builds n octets of literal content: command-like text carrying fresh markers, then
-// CRLF-rich noise. clean: printable, no CR/LF (acceptable as a mailbox name).
-func (g *c04Gen) payload(n int, clean bool) []byte {
-	if n == 0 {
-		return nil
-	}
-	var b []byte
-	if clean {
-		b = []byte(g.mark("zm"))
-		for len(b) < n {
-			b = append(b, "abcdefghij-klmnop.qrstuv_wxyz"[len(b)%29])
-		}
-		return b[:n]
-	}
-	k := g.mark("")
-	cmdlike := []string{
-		"\r\nz" + k + " LOGIN zu" + k + " zp" + k + "\r\n",
-		"x" + k + " DELETE zb" + k + "\r\n",
-		"w" + k + " SELECT zs" + k + "\r\nv" + k + " NOOP\r\n",
-	}
-	noise := []string{"\r\n", "\n", "{3+}\r\n", "{2}\r\n", "\" ", ") (", "\\", "a b\r\n", "+ ok\r\n", "DONE\r\n", "* \r\n"}
-	switch g.r.intn(3) {
-	case 0:
-		b = append(b, cmdlike[0]...)
-	case 1:
-		b = append(b, cmdlike[1]...)
-		b = append(b, cmdlike[0]...)
-	default:
-		b = append(b, cmdlike[2]...)
-	}
-	for len(b) < n {
-		if g.r.chance(1, 6) {
-			b = append(b, pick(g.r, cmdlike)...)
-		} else {
-			b = append(b, pick(g.r, noise)...)
-		}
-	}
-	b = b[:n]
-	return b
-}
-
-// one string argument, rendered in one of the four forms; returns the text to put on the command
-// line and, for literals, the seg break. val is the value for atom/quoted forms.
-type c04Piece struct {
-	text    string // command text up to and including a literal header + CRLF, or the atom/quoted
-	kind    byte   // 0 none, 'n', 's'
-	payload []byte
-	short   bool
-}
-
-func (g *c04Gen) arg(val string, mailbox bool) c04Piece {
-	form := g.r.intn(10)
-	switch {
-	case form < 2:
-		g.count("arg:atom")
-		return c04Piece{text: val}
-	case form < 4:
-		g.count("arg:quoted")
-		return c04Piece{text: "\"" + val + "\""}
-	}
-	nonSync := form >= 7
-	// size: small ones often, each boundary regularly, at most two large payloads per case
-	var size int64
-	switch s := g.r.intn(12); {
-	case s < 3:
-		size = int64(2 + g.r.intn(60))
-	case s < 4:
-		size = int64(60 + g.r.intn(400))
-	default:
-		size = c04Sizes[g.r.intn(len(c04Sizes))]
-	}
-	if size > 1024 && size <= 8192 {
-		if g.big >= 2 {
-			size = int64(1 + g.r.intn(40))
-		} else {
-			g.big++
-		}
-	}
-	p := c04Piece{kind: 's'}
-	hdr := fmt.Sprintf("{%d}", size)
-	if nonSync {
-		p.kind = 'n'
-		hdr = fmt.Sprintf("{%d+}", size)
-	}
-	p.text = hdr + "\r\n"
-	if size > 8192 {
-		p.short = true
-		if g.r.chance(1, 2) {
-			p.payload = g.payload(200, false) // the beginning of a payload that never completes
-		}
-	} else {
-		p.payload = g.payload(int(size), mailbox && g.r.chance(1, 2))
-	}
-	g.count(fmt.Sprintf("arg:lit%c:%d", p.kind, size))
-	return p
-}
-
-// build assembles a command from fixed words and pieces.
-type c04Builder struct {
-	cmd sfCmd
-	cur []byte
-}
-
-func (b *c04Builder) word(s string) { b.cur = append(b.cur, s...) }
-func (b *c04Builder) piece(p c04Piece) {
-	b.cur = append(b.cur, p.text...)
-	if p.kind != 0 {
-		b.cmd.segs = append(b.cmd.segs, sfSeg{text: b.cur, kind: p.kind, payload: p.payload, short: p.short})
-		b.cur = nil
-	}
-}
-func (b *c04Builder) end() sfCmd {
-	b.cur = append(b.cur, "\r\n"...)
-	b.cmd.segs = append(b.cmd.segs, sfSeg{text: b.cur})
-	return b.cmd
-}
-
-func plainB64(u, p string) string {
-	return base64.StdEncoding.EncodeToString([]byte("\x00" + u + "\x00" + p))
-}
-
-func (g *c04Gen) command() sfCmd {
-	tag := g.mark("t")
-	b := &c04Builder{cmd: sfCmd{tag: tag}}
-	b.word(tag + " ")
-	mb := func() c04Piece {
-		v := g.mark("mb")
-		if g.r.chance(1, 8) {
-			v = pick(g.r, []string{"INBOX", "inbox", "InBox"})
-		}
-		return g.arg(v, true)
-	}
-	// a spurious trailing argument on a command that takes none / after the last one
-	extra := func() {
-		if g.r.chance(1, 5) {
-			b.word(" ")
-			b.piece(g.arg(g.mark("e"), false))
-			g.count("extra-arg")
-		}
-	}
-	pickName := func(names ...string) string {
-		n := pick(g.r, names)
-		if g.r.chance(1, 6) {
-			n = strings.ToLower(n)
-		}
-		g.count("cmd:" + strings.ToUpper(n))
-		return n
-	}
-	switch c := g.r.intn(100); {
-	case c < 14:
-		b.word(pickName("LOGIN") + " ")
-		b.piece(g.arg(g.mark("u"), false))
-		b.word(" ")
-		b.piece(g.arg(g.mark("p"), false))
-		extra()
-		if g.state == 0 {
-			g.state = 1
-		}
-	case c < 22:
-		b.word(pickName("SELECT", "EXAMINE") + " ")
-		b.piece(mb())
-		extra()
-		if g.state >= 1 {
-			g.state = 2
-		}
-	case c < 36:
-		b.word(pickName("CREATE", "DELETE", "SUBSCRIBE", "UNSUBSCRIBE") + " ")
-		b.piece(mb())
-		extra()
-	case c < 42:
-		b.word(pickName("RENAME") + " ")
-		b.piece(mb())
-		b.word(" ")
-		b.piece(mb())
-		extra()
-	case c < 56:
-		b.word(pickName("APPEND") + " ")
-		b.piece(mb())
-		b.word(" ")
-		if g.r.chance(1, 3) {
-			b.word(pick(g.r, []string{"(\\Seen)", "(\\Seen \\Deleted)", "()", "(custom)"}) + " ")
-		}
-		// the message is always a literal
-		var p c04Piece
-		for p.kind == 0 {
-			p = g.arg("x", false)
-		}
-		b.piece(p)
-		if g.r.chance(1, 12) {
-			b.word(" trailing")
-			g.count("append-trailing")
-		}
-	case c < 66:
-		b.word(pickName("NOOP", "CAPABILITY", "CHECK", "CLOSE", "UNSELECT", "EXPUNGE", "NAMESPACE", "STARTTLS", "FOO", "UID FOO"))
-		extra()
-	case c < 69:
-		b.word(pickName("ENABLE") + " " + pick(g.r, []string{"IMAP4rev2", "UTF8=ACCEPT", "X-A X-B"}))
-		extra()
-	case c < 71:
-		b.word(pickName("LOGOUT", "UNAUTHENTICATE"))
-	case c < 80:
-		b.word(pickName("AUTHENTICATE") + " " + pick(g.r, []string{"PLAIN", "plain", "PLAIN", "LOGIN"}))
-		u, p := g.mark("au"), g.mark("ap")
-		var line string
-		switch v := g.r.intn(10); {
-		case v < 3:
-			line = plainB64(u, p)
-		case v < 4:
-			line = "*"
-		case v < 5:
-			line = "b" + g.mark("") + " DELETE " + g.mark("sm")
-		case v < 7:
-			n := pick(g.r, []int{4000, 4093, 4094, 4095, 4096, 4097, 8191, 8192, 9000})
-			line = strings.Repeat("A", n) + "q" + g.mark("") + " DELETE " + g.mark("sm")
-			g.count(fmt.Sprintf("sasl-long:%d", n))
-		case v < 8:
-			line = ""
-		default:
-			line = plainB64("", "")
-		}
-		if g.r.chance(1, 4) {
-			// initial response on the command line
-			if g.r.chance(1, 3) {
-				b.word(" ")
-				b.piece(g.arg(plainB64(u, p), false))
-				g.count("sasl-ir-as-string")
-			} else {
-				b.word(" " + pick(g.r, []string{plainB64(u, p), "=", "!!", line}))
-			}
-			return b.end()
-		}
-		b.cur = append(b.cur, "\r\n"...)
-		b.cmd.segs = append(b.cmd.segs, sfSeg{text: b.cur, kind: 'a', payload: []byte(line + "\r\n")}, sfSeg{})
-		if g.state == 0 {
-			g.state = 1
-		}
-		return b.cmd
-	case c < 88:
-		b.word(pickName("IDLE"))
-		var line string
-		switch v := g.r.intn(8); {
-		case v < 4:
-			line = "DONE"
-		case v < 5:
-			line = "done"
-		case v < 6:
-			line = "b" + g.mark("") + " DELETE " + g.mark("sm")
-		default:
-			n := pick(g.r, []int{4093, 4094, 4095, 4096, 4097, 9000})
-			line = strings.Repeat("D", n) + "q" + g.mark("") + " DELETE " + g.mark("sm")
-			g.count(fmt.Sprintf("idle-long:%d", n))
-		}
-		b.cur = append(b.cur, "\r\n"...)
-		b.cmd.segs = append(b.cmd.segs, sfSeg{text: b.cur, kind: 'i', payload: []byte(line + "\r\n")}, sfSeg{})
-		return b.cmd
-	case c < 93:
-		b.word(pickName("SEARCH", "UID SEARCH") + " " + pick(g.r, []string{"ALL", "NOT SEEN", "OR SEEN (DELETED NOT NEW)", "(ALL) UNSEEN", "NOT NOT NOT ALL", "((ALL))", "OR ALL", "NOT"}))
-		extra()
-	default:
-		// commands outside the model's signature table, with string arguments in every form
-		switch g.r.intn(6) {
-		case 0:
-			b.word(pickName("LIST") + " ")
-			b.piece(g.arg(g.mark("ref"), true))
-			b.word(" ")
-			b.piece(g.arg(g.mark("pat"), true))
-		case 1:
-			b.word(pickName("STATUS") + " ")
-			b.piece(mb())
-			b.word(" (MESSAGES UNSEEN)")
-		case 2:
-			b.word(pickName("SEARCH") + " SUBJECT ")
-			b.piece(g.arg(g.mark("subj"), false))
-			b.word(" TEXT ")
-			b.piece(g.arg(g.mark("txt"), false))
-		case 3:
-			b.word(pickName("COPY", "MOVE", "UID COPY") + " 1:3 ")
-			b.piece(mb())
-		case 4:
-			b.word(pickName("FETCH") + " 1 (BODY[HEADER.FIELDS (")
-			b.piece(g.arg(g.mark("hf"), false))
-			b.word(")])")
-		default:
-			b.word(pickName("STORE") + " 1 +FLAGS (\\Seen)")
-			extra()
-		}
-	}
-	return b.end()
-}
-
-func (g *c04Gen) stream() []sfCmd {
-	var cmds []sfCmd
-	// reach a state first, most of the time
-	mk := func(text string) sfCmd {
-		tag := g.mark("t")
-		return sfCmd{tag: tag, segs: []sfSeg{{text: []byte(tag + " " + text + "\r\n")}}}
-	}
-	switch g.r.intn(4) {
-	case 1:
-		cmds = append(cmds, mk("LOGIN "+g.mark("u")+" "+g.mark("p")))
-		g.state = 1
-	case 2, 3:
-		cmds = append(cmds, mk("LOGIN "+g.mark("u")+" "+g.mark("p")), mk("SELECT "+g.mark("mb")))
-		g.state = 2
-	}
-	n := 1 + g.r.intn(6)
-	for i := 0; i < n; i++ {
-		cmds = append(cmds, g.command())
-	}
-	return cmds
-}
-
-// streams outside the oracle's domain: the RFC lexer and the library's liberal lexer may
-// legitimately frame them differently. Model comparison, output well-formedness and "no panic"
-// still apply.
-func (g *c04Gen) wildStream() []sfCmd {
-	raw := func(s string) sfCmd {
-		tag := g.mark("t")
-		return sfCmd{tag: tag, segs: []sfSeg{{text: []byte(tag + " " + s)}}}
-	}
-	var cmds []sfCmd
-	if g.r.chance(1, 2) {
-		cmds = append(cmds, raw("LOGIN a b\r\n"))
-	}
-	for i, n := 0, 1+g.r.intn(3); i < n; i++ {
-		switch g.r.intn(6) {
-		case 0:
-			cmds = append(cmds, raw("LOGIN \"x\r\ny\" p\r\n"))
-			g.count("wild:quoted-crlf")
-		case 1:
-			cmds = append(cmds, raw("NOOP\n"))
-			g.count("wild:lone-lf")
-		case 2:
-			cmds = append(cmds, raw("LOGIN {3} \r\nabc p\r\n"))
-			g.count("wild:sp-before-crlf")
-		case 3:
-			cmds = append(cmds, raw("DELETE \"abc {3}\r\nxyz\r\n"))
-			g.count("wild:open-quote")
-		case 4:
-			cmds = append(cmds, raw("NOOP\rX\r\n"))
-			g.count("wild:lone-cr")
-		default:
-			cmds = append(cmds, raw("NOOP\r\n"))
-		}
-	}
-	return cmds
+	o := sfRun(env, cmds, pipeline)
+	return []string{lit, b01(preauth), b01(pipeline), sfEncode(cmds), hx(o.delivered), o.trace, o.end,
+		o.calls, strconv.Itoa(o.closes), strconv.Itoa(o.panics)}
 }
 
 // past failures and the design read-through's replays, always run first
@@ -502,7 +81,7 @@ func genC04(e *emitter, tier string, seed uint64) {
 		seeds[i] = base.next()
 	}
 	parCases(e, n, func(i int) []caseLine {
-		g := &c04Gen{r: &rng{s: seeds[i]}}
+		g := &sfGen{r: &rng{s: seeds[i]}}
 		lit := lits[g.r.intn(3)]
 		preauth := g.r.chance(1, 4)
 		if preauth {
